@@ -34,7 +34,7 @@ def tok_triples(names, terms_index, gap, foreign_kind=None):
 
 
 def make_cases(chk, rng, n_accept, gen_fn, configs, max_attempts=None, name_prefix="g", text_fn=None,
-               want=None):
+               want=None, variants_fn=None):
     """Generate grammars until n_accept are accepted by the real CLI under the first
     configuration; then generate all configurations.  Returns (subject, cases)."""
     subj = subject.Subject(chk.work)
@@ -85,25 +85,38 @@ def make_cases(chk, rng, n_accept, gen_fn, configs, max_attempts=None, name_pref
                 continue
             c = Case(len(cases), g, text, cfg)
             cases.append(c)
+    # variants (e.g. the same grammar with #[inline] marks, or its reference expansion)
+    allc = list(cases)
+    if variants_fn:
+        for c in cases:
+            c.variants = []
+            for vk, (vg, vtext, vcfg) in enumerate(variants_fn(c)):
+                vc = Case("%sv%d" % (c.idx, vk), vg, vtext, vcfg)
+                vc.base = c
+                c.variants.append(vc)
+                allc.append(vc)
     # all configurations for accepted grammars
     specs = []
-    for c in cases:
+    for c in allc:
         for tag in configs:
-            specs.append(dict(name="g%d_%s" % (c.idx, tag), text=c.text, cfg=tag, starts=c.g.starts()))
+            specs.append(dict(name="g%s_%s" % (c.idx, tag), text=c.text, cfg=tag, starts=c.g.starts()))
     mods = subj.add_many(specs)
     k = 0
-    for c in cases:
+    for c in allc:
         for tag in configs:
             m = mods[k]
             k += 1
             c.status[tag] = m.status
-            chk.count("config_%s_%s" % (tag, m.status))
+            c.stderr = getattr(c, "stderr", {})
+            if m.status != "ok":
+                c.stderr[tag] = m.stderr[-1500:]
+            chk.count("config_%s_%s" % (tag, m.status) if not hasattr(c, "base") else "variant_%s_%s" % (tag, m.status))
     core.log("[pipeline] %d grammars accepted of %d generated (%.1fs)" % (len(cases), attempts, time.time() - t0))
     ok = subj.build()
     okset = set(ok)
-    for c in cases:
+    for c in allc:
         for tag in configs:
-            n = "g%d_%s" % (c.idx, tag)
+            n = "g%s_%s" % (c.idx, tag)
             if n in okset:
                 c.mods[tag] = n
     return subj, cases
